@@ -60,8 +60,9 @@ Definition put_account_info (sc a : Z) (next_ext next_int name : Z) : prog unit 
   put (sb sc oNameIdx) [name] [a].
 
 (** manager.go NewScopedKeyManager (unlocked, not watch-only):
-    createScopedManagerNS (8 CreateBucket), schema, cointype keys, the two
-    default accounts.  The last-account key is NOT written for such a scope. *)
+    createScopedManagerNS (8 CreateBucket), schema, then createManagerKeyScope:
+    cointype keys, the two default accounts, and the last-account row (account
+    0) of the new scope - 18 mutating calls. *)
 Definition new_scope (sc : Z) : prog unit :=
   create_bucket (sb sc oScope) ;;;
   for_each [oAcct; oAddr; oUsed; oAddrAcctIdx; oNameIdx; oIDIdx; oMeta]
@@ -70,7 +71,8 @@ Definition new_scope (sc : Z) : prog unit :=
   put (sb sc oScope) [1] [1] ;;;
   put (sb sc oScope) [2] [2] ;;;
   put_account_info sc 0 0 0 name_default ;;;
-  put_account_info sc (-1) 0 0 name_imported.
+  put_account_info sc (-1) 0 0 name_imported ;;;
+  put (sb sc oMeta) [0] [0].
 
 Definition scope_exists (sc : Z) : prog bool := has_bucket (sb sc oScope).
 
